@@ -89,7 +89,7 @@ PROPS = {
         "technique": 'Lean 4 proof (induction over reply scripts and command histories on a byte-level loop model) + byte-exact differential correspondence + reference-BMC verdicts',
         "ref": '§5 C09',
         "proofs": ['Bmc.Proofs.C09'],
-        "scenarios": ['send', 'slsend', 'udp'],
+        "scenarios": ['send', 'slsend', 'udp', 'hs'],
         "rule": 'send: exhaustive reply scripts over the 22-letter alphabet {final, error code, one bit of the RMCP header flipped, busy C0, timeout C3, reply to another command (any completion code, near-miss command numbers, other group body / OEM enterprise), authenticated-flagged forgery without any trailer, authentic response cut at the payload end, AuthCode cut short or extended, unauthenticated forgery with foreign/own session ID, authentic but foreign session, flipped AuthCode, wrong key, flipped ciphertext, bad confidentiality pad, authentic unencrypted, garbage, non-message packet, runt message, 7-byte response, lost} to depth 3 (thorough: depth 3 exhaustively + a quarter of depth 4) on suite 3 and one level less on four more suites, random operation (incl. group/OEM NetFns), LUN and request body of 0..39 bytes per script, every request length 0..63, counters right below 2^16, 2^31 and the 32-bit wrap (ops that wrap are class M with a no-reuse verdict), unserialisable requests. Non-trivial = script with a non-final outcome before its end; distinct = distinct op line. slsend: exhaustive scripts over 11 letters to depth 3 (thorough 4).',
         "modelled": ["in-session and session-less retry loops, layer (re)initialisation, LayersDecoder chain, sequence counter: hand models tied by byte-exact correspondence"],
         "assumptions": ["a Send that fails before anything leaves the socket is outside the outcome alphabet (it still consumes a number, which is the safe choice)"],
@@ -100,7 +100,7 @@ PROPS = {
         "technique": 'Lean 4 proof (refinement of the loop models to an abstract fold, induction over scripts) + byte-exact differential correspondence + reference verdicts',
         "ref": '§5 C10',
         "proofs": ['Bmc.Proofs.C10'],
-        "scenarios": ['send', 'slsend', 'udp'],
+        "scenarios": ['send', 'slsend', 'udp', 'hs'],
         "rule": 'send: exhaustive reply scripts over the 22-letter alphabet {final, error code, one bit of the RMCP header flipped, busy C0, timeout C3, reply to another command (any completion code, near-miss command numbers, other group body / OEM enterprise), authenticated-flagged forgery without any trailer, authentic response cut at the payload end, AuthCode cut short or extended, unauthenticated forgery with foreign/own session ID, authentic but foreign session, flipped AuthCode, wrong key, flipped ciphertext, bad confidentiality pad, authentic unencrypted, garbage, non-message packet, runt message, 7-byte response, lost} to depth 3 (thorough: depth 3 exhaustively + a quarter of depth 4) on suite 3 and one level less on four more suites, random operation (incl. group/OEM NetFns), LUN and request body of 0..39 bytes per script, every request length 0..63, counters right below 2^16, 2^31 and the 32-bit wrap (ops that wrap are class M with a no-reuse verdict), unserialisable requests. Non-trivial = script with a non-final outcome before its end; distinct = distinct op line. slsend: exhaustive scripts over 11 letters to depth 3 (thorough 4).',
         "modelled": ["in-session and session-less retry loops, layer (re)initialisation, LayersDecoder chain, sequence counter: hand models tied by byte-exact correspondence"],
         "assumptions": ["a Send that fails before anything leaves the socket is outside the outcome alphabet (it still consumes a number, which is the safe choice)"],
